@@ -103,6 +103,11 @@ class HandlerInterp(object):
                 if isinstance(t, ast.Name):
                     self.env[t.id] = self.val(st.value)
                     continue
+                if isinstance(t, ast.Tuple) and isinstance(st.value, ast.Tuple) and len(t.elts) == len(st.value.elts):
+                    vals = [self.val(e) for e in st.value.elts]
+                    for te, v in zip(t.elts, vals):
+                        self.env[te.id] = v
+                    continue
                 if isinstance(t, ast.Tuple) and isinstance(st.value, ast.Call):
                     callee = None
                     if isinstance(st.value.func, (ast.Name, ast.Attribute)):
@@ -151,9 +156,9 @@ class HandlerInterp(object):
             raise AnalysisError('%s: statement `%s` not interpreted' % (self.f.where, ast.unparse(st)[:60]))
 
     def _test(self, t):
-        if isinstance(t, ast.Compare) and len(t.ops) == 1 and isinstance(t.ops[0], ast.Gt) and isinstance(t.comparators[0], ast.Constant) \
-                and t.comparators[0].value == 0:
-            return ('>0', self.num(t.left))
+        if isinstance(t, ast.Compare) and len(t.ops) == 1 and isinstance(t.comparators[0], ast.Constant):
+            op = {ast.Gt: '>', ast.GtE: '>=', ast.Lt: '<', ast.LtE: '<=', ast.Eq: '==', ast.NotEq: '!='}.get(type(t.ops[0]), '?')
+            return ('%s%s' % (op, t.comparators[0].value), self.num(t.left))
         raise ValueError('test')
 
 
